@@ -77,15 +77,28 @@ theorem C07_tutorial_spellings :
 example : ("2>&1".toList, Op.errToOut) ∈ tutorialSpellings := by decide
 example : classify T "err>out".toList = .ok .errToOut ∧ classify T "2>&1".toList = .ok .errToOut := by decide +kernel
 
-/-- `>` truncates and `>>` appends: the open mode of every file redirect spelling -/
-def modeCheck (r : Str) : Bool :=
-  let want : Str := if r.reverse.take 2 = ['>', '>'] then ['a'] else ['w']
-  match classify T r with
-  | .ok (.outFile m) | .ok (.errFile m) | .ok (.allFile m) => m == want
+/-- does the spelling end in `>>`? -/
+def endsAppend (r : Str) : Bool := r.reverse.take 2 == ['>', '>']
+
+/-- the documented operator of a spelling appends iff the spelling ends in `>>` (no table involved) -/
+def appendCheck (r : Str) : Bool :=
+  match specDecode r with
+  | some (.outFile a) | some (.errFile a) | some (.allFile a) => a == endsAppend r
   | _ => true
 
-theorem C07_mode : ∀ r ∈ Gen.Redir.tokenizable, modeCheck r = true := by
+theorem append_check : ∀ r ∈ Gen.Redir.tokenizable, appendCheck r = true := by
   decide +kernel
+
+/-- `>` TRUNCATES AND `>>` APPENDS: whenever the tables decode a tokenizable spelling to a file redirect, the open mode is
+`a` if the spelling ends in `>>` and `w` otherwise (`w` truncates, `a` appends: Python's `open`) -/
+theorem C07_mode (r : Str) (h : r ∈ Gen.Redir.tokenizable) (m : Str)
+    (hc : classify T r = .ok (.outFile m) ∨ classify T r = .ok (.errFile m) ∨ classify T r = .ok (.allFile m)) :
+    m = if endsAppend r then ['a'] else ['w'] := by
+  obtain ⟨op, hd, hcl⟩ := C07_spelling_table r h
+  have ha := append_check r h
+  simp only [appendCheck, hd] at ha
+  rw [hcl] at hc
+  cases op <;> simp [clsOf] at hc <;> simp at ha <;> subst ha <;> subst hc <;> cases endsAppend r <;> rfl
 
 example : classify T ">".toList = .ok (.outFile ['w']) ∧ classify T "e>>".toList = .ok (.errFile ['a']) := by decide +kernel
 
@@ -102,7 +115,19 @@ theorem C07_grammar_shape : ∀ r ∈ Gen.Redir.tokenizable, shapeCheck r = true
 
 /-! ## operators that are not documented -/
 
-def accepted (w : Str) : Bool := match classify T w with | .ok _ => true | .error _ => false
+/-- no undocumented operator is lexer-reachable: every tokenizable spelling has a documented meaning (so a tokenizer that
+starts emitting, say, `2>&3` as one token breaks this theorem and `C07_spelling_table`) -/
+theorem C07_unknown_rejected : ∀ r ∈ Gen.Redir.tokenizable, (specDecode r).isSome = true := by
+  decide +kernel
+
+/-- the decoder's decision for a word of the language of `_REDIR_REGEX`, from the groups of ITS row of the table
+(`classify T w` is this function applied to the row the table lookup finds for `w`) -/
+def acceptedRow (row : Str × (Str × Str × Str)) : Bool :=
+  match classifyGiven T (some row.2) row.1 with | .ok _ => true | .error _ => false
+
+theorem classify_lookup (w : Str) (g : Str × Str × Str) (h : regexMatch T w = some g) :
+    classify T w = classifyGiven T (some g) w := by
+  simp [classify, h]
 
 /-- the destination group is `&` + digit (`2>&3`: the decoder drops the descriptor and treats it as `2>` file) -/
 def ampFd (row : Str × (Str × Str × Str)) : Bool := match row.2.2.2 with | '&' :: _ => true | _ => false
@@ -110,24 +135,26 @@ def ampFd (row : Str × (Str × Str × Str)) : Bool := match row.2.2.2 with | '&
 /-- a merge written with a stray leading `&` (`&2>o`: `_redirect_streams` deletes every `&` before looking it up) -/
 def strayAmp (row : Str × (Str × Str × Str)) : Bool := match row.2.1 with | '&' :: _ :: _ => true | _ => false
 
-/-- MALFORMED OPERATORS ARE REJECTED: every word of the language of `_REDIR_REGEX` that is not a tokenizable spelling
-raises — except the two families `X>&N` and `&N>Y`, which the decoder accepts when it is called programmatically.  No
-member of the two families is tokenizable (they are not in the list by definition, and the `lexer` stream of the check
-shows the real lexer never emits one as a single token): a remark about the API of run_subproc, not a routing defect.
-A tokenizer change that makes one of them a token breaks `C07_spelling_table`. -/
-theorem C07_unknown_rejected :
+/-- MALFORMED OPERATORS ARE REJECTED: for every word of the language of `_REDIR_REGEX` (every row of the translated
+table) that is not a tokenizable spelling the decoder raises — except the two families `X>&N` and `&N>Y`, which it
+accepts when it is called programmatically with such a string.  No member of the two families is tokenizable, and the
+`lexer` stream of the check shows the real lexer never emits one as a single token: a remark about the API of
+run_subproc, not a routing defect. -/
+theorem C07_malformed_rejected :
     ∀ row ∈ Gen.Redir.regexLang, Gen.Redir.tokenizable.contains row.1 = false → ampFd row = false → strayAmp row = false →
-      accepted row.1 = false := by
+      acceptedRow row = false := by
   decide +kernel
 
-/-- … and outside the regex language nothing is accepted but the pipe operators -/
-theorem C07_outside_regex (w : Str) (h : T.regex.lookup (stripFinalNewline w) = none)
-    (h1 : T.a2p.contains w = false) (h2 : T.e2p.contains w = false)
-    (h3 : T.e2o.contains (w.filter (· ≠ '&')) = false) (h4 : T.o2e.contains (w.filter (· ≠ '&')) = false) :
+/-- … and a string outside the regex language that is not one of the merge / pipe spellings is rejected -/
+theorem C07_outside_regex (w : Str) (h : regexMatch T w = none)
+    (h1 : w ∉ T.a2p) (h2 : w ∉ T.e2p) (h3 : w.filter (· ≠ '&') ∉ T.e2o) (h4 : w.filter (· ≠ '&') ∉ T.o2e) :
     classify T w = .error .noMatch := by
-  simp [classify, h1, h2, h3, h4, parseRedirects, h]
+  simp at h3 h4
+  simp [classify, classifyGiven, h1, h2, h3, h4, h]
 
-example : accepted "2>&3".toList = true ∧ accepted "2>3".toList = false ∧ accepted "o>p".toList = false := by decide +kernel
+example : acceptedRow ("2>&3".toList, ("2".toList, ">".toList, "&3".toList)) = true ∧
+    acceptedRow ("2>3".toList, ("2".toList, ">".toList, "3".toList)) = false := by decide +kernel
+example : classify T "o>p".toList = .error .noMatch := by decide +kernel
 
 /-! ## conflicts are errors -/
 
@@ -144,7 +171,7 @@ theorem good_of_source (p : Str × Loc) (h : FromSource p) : Good T p := by
   have := C07_grammar_shape p.1 h1
   simp only [shapeCheck, hd, hm] at this
   simp at this
-  exact List.contains_iff_mem.mp this.1 |> fun x => x
+  exact this.1
 
 /-- CONFLICTING REDIRECTS ARE ERRORS, for EVERY list of redirects of one command: `SubprocSpec.resolve_redirects`
 succeeds iff every redirect is well formed (documented operator, the target it needs, the target can be opened) and
